@@ -191,6 +191,16 @@ func c03Exec(op string) string {
 		return "err"
 	}
 	notes := []string{}
+	// the document stays what it was while other documents are encoded
+	kept := string(b)
+	other := map[string]interface{}{"zz": []interface{}{"another", "document"}, "-n": 1.0}
+	mxj.Map(other).Xml()
+	mxj.Map(other).Xml("root")
+	mxj.AnyXml(other, "root", "el")
+	mxj.AnyXml([]interface{}{"x", other})
+	if string(b) != kept {
+		notes = append(notes, "KEPT the bytes the encoder returned changed while another value was encoded")
+	}
 	want := imageDoc(api, v, rt, et)
 	check := func(label string, out []byte, e error) {
 		if e != nil {
